@@ -140,6 +140,42 @@ func genCfg(r *vgen.Rand, i int) caseCfg {
 	return c
 }
 
+var routerFuncs = []string{
+	"router.(*dataPlane).runProcessor", "router.(*dataPlane).runSlowPathProcessor",
+	"udpip.(*udpConnection).receive", "udpip.(*udpConnection).send",
+	"udpip.(*internalLink).runProcessor", "bfd.(*Session).Run",
+}
+
+// routerIdle reports whether every goroutine of the router is blocked on a channel (a processor
+// waiting for its queue, a receive loop inside the fake ReadBatch, a send loop waiting for its
+// queue or held at the fake WriteBatch gate, a BFD session between two transmissions). The
+// snapshot of all goroutines is taken with the world stopped.
+func routerIdle() bool {
+	buf := make([]byte, 1<<20)
+	buf = buf[:runtime.Stack(buf, true)]
+	for _, g := range strings.Split(string(buf), "\n\n") {
+		isRouter := false
+		for _, f := range routerFuncs {
+			if strings.Contains(g, f) {
+				isRouter = true
+				break
+			}
+		}
+		if !isRouter {
+			continue
+		}
+		i, j := strings.IndexByte(g, '['), strings.IndexByte(g, ']')
+		if i < 0 || j < i {
+			return false
+		}
+		st := g[i+1 : j]
+		if !strings.HasPrefix(st, "chan receive") && !strings.HasPrefix(st, "select") {
+			return false
+		}
+	}
+	return true
+}
+
 func waitFor(d time.Duration, f func() bool) bool {
 	end := time.Now().Add(d)
 	for !f() {
@@ -321,18 +357,24 @@ func runCase(cfg caseCfg, r *vgen.Rand) (out caseOut) {
 			return true
 		})
 	}
-	quiet := func() bool {
-		return waitFor(2*time.Second, func() bool {
-			for _, c := range live {
-				if len(c.in) > 0 {
-					return false
-				}
+	inputsEmpty := func() bool {
+		for _, c := range live {
+			if len(c.in) > 0 {
+				return false
 			}
-			c1, _, _ := tr.Activity()
-			l1 := dp.PoolLen()
-			time.Sleep(1500 * time.Microsecond)
-			c2, _, _ := tr.Activity()
-			return c1 == c2 && l1 == dp.PoolLen()
+		}
+		return true
+	}
+	// Quiescent: no input left and every router goroutine blocked (see routerIdle). The
+	// processors emit no event between taking a packet from their queue and returning it, so
+	// silence in the log alone proves nothing.
+	quiet := func() bool {
+		return waitFor(3*time.Second, func() bool {
+			if !inputsEmpty() || !routerIdle() {
+				return false
+			}
+			runtime.Gosched()
+			return inputsEmpty() && routerIdle()
 		})
 	}
 	if !quiet() {
@@ -376,16 +418,21 @@ func runCase(cfg caseCfg, r *vgen.Rand) (out caseOut) {
 				out.Stats["retained_armed"] = 1
 			}
 		}
+		if !quiet() {
+			out.Stats["not_quiescent"] = 1
+		}
 	}
 
 	if cfg.BFD {
 		// udpConnection.stop closes the send queues before the BFD sessions are stopped; a BFD
 		// packet sent in between panics (send on closed channel) and log.HandlePanic exits the
 		// process. Stop the router only while every session is well inside its 0.75-1 s pause.
+		// (A session bootstrapped by the last BFD packet sends within 2 ms: give it time to show.)
+		time.Sleep(5 * time.Millisecond)
 		waitFor(5*time.Second, func() bool {
 			ls := sessions()
 			for _, l := range ls {
-				if d := time.Since(l); d < 60*time.Millisecond || d > 600*time.Millisecond {
+				if d := time.Since(l); d < 60*time.Millisecond || d > 400*time.Millisecond {
 					return false
 				}
 			}
